@@ -81,19 +81,22 @@ def advanceToNextNamespaceC (c : PC) : Out (PC × Bool) :=
   | .throw e => .throw e
   | .fault s => .fault s
 
-/-- `advance_field()` -/
-def advanceFieldC (M : Meta) (c : PC) : Out (PC × Bool) :=
-  if c.p.null || c.p.bit == M.max then .ok (c, false) else
-  if c.p.bit > M.max then .fault "skip_current_field:RADIOTAP_METADATA index" else
-  let r1 := skipCurrentField M c.p
-  if r1.2 then .ok ({ c with p := r1.1 }, true) else
-  match advanceToNextNamespaceC { c with p := r1.1 } with
+/-- second half of `advance_field()`: the current present word is exhausted, try the next namespace -/
+def nextNamespaceFieldC (M : Meta) (c1 : PC) : Out (PC × Bool) :=
+  match advanceToNextNamespaceC c1 with
   | .ok (c2, moved) =>
     if !moved then .ok ({ c2 with p := { c2.p with bit := M.max } }, false) else
     let r3 := advanceToNextField M { c2.p with bit := 0 }
     if !r3.2 then .ok ({ c2 with p := { r3.1 with bit := M.max } }, false) else .ok ({ c2 with p := r3.1 }, true)
   | .throw e => .throw e
   | .fault s => .fault s
+
+/-- `advance_field()` -/
+def advanceFieldC (M : Meta) (c : PC) : Out (PC × Bool) :=
+  if c.p.null || c.p.bit == M.max then .ok (c, false) else
+  if c.p.bit > M.max then .fault "skip_current_field:RADIOTAP_METADATA index" else
+  let r1 := skipCurrentField M c.p
+  if r1.2 then .ok ({ c with p := r1.1 }, true) else nextNamespaceFieldC M { c with p := r1.1 }
 
 /-- `skip_to_field(1 << bit)`: the parser and `has_fields()` -/
 def skipToFieldC (M : Meta) : Nat → PC → Nat → Out (PC × Bool)
